@@ -82,6 +82,10 @@ class JsonSchemaGenerator:
                     "enums": enum_map
                 }
             }
+            if isinstance(base, EnumMeta) and len({self._get_primitive(type(v)) for v in enum_values}) > 1:
+                # members of several primitive types (no mixed-in data type): the enum keyword alone describes them
+                data.pop("type")
+                fmt = None
             if fmt:
                 data.update(format=fmt)
             return data
